@@ -523,5 +523,7 @@ def run(cx, out):
     from . import shared
     # ... and the advertised maximum lengths of the compact types (incl. the blanket impl for CompactAs wrappers) are at
     # least the table maxima (C13 R13.1, the general form of R04.4)
-    shared.premises(cx, out, {'c18': {'R18.1', 'R18.2'}, 'c13': {'R13.1'}})
+    # ... and the fixed buffer behind using_encoded appends exactly what it is given (C07 R07.3), so all entry points of the
+    # compact encoders produce the bytes the tables describe (R07.1)
+    shared.premises(cx, out, {'c18': {'R18.1', 'R18.2'}, 'c13': {'R13.1'}, 'c07': {'R07.1', 'R07.3'}})
 
